@@ -24,6 +24,20 @@ def sched(text, ref):
 
 
 CLAIMED = {
+    'C02': sched('Proof (plain pipelines, full strength on the model): for every pipeline of Input dependencies (any size / shape, '
+                 'any retry / default / mode settings, failures anywhere, collaborators that do not suspend), under every interleaving '
+                 'of task sections, every completion order of bodies and timers, every topological launch order and cancellation of '
+                 'the caller at any point, while the run is pending the deadlock / lost-wake-up state is unreachable '
+                 '(C02_plain_no_stuck_state, from the inductive invariant PInv: every blocked waiter\'s predicate is false, the '
+                 'launcher has created tasks for a prefix of the launch order, nobody is cancelled). Partial for switch / one-of / '
+                 'recurrent shapes: there the exact deadlock verdict of the stepping loop is compared with the model on every '
+                 'explored trace and the past deadlocks are regression programs, but stuck-freedom is not a theorem.', '§6 C02'),
+    'C06': sched('Proof (plain pipelines, on the model): in every idle state of a pending run (nothing can run until a body or timer '
+                 'completes) every node whose lower depths have all completed has been started, whatever its siblings are doing and '
+                 'whatever the execution modes (C06_plain_next_depth_started, C06_plain_siblings_together, from PInv). Hypothesis '
+                 'LaunchByDepth (the list _get_node_order returns is sorted by depth) is checked on every list the real code '
+                 'returns; the conclusion is monitored on schedules that hold all running bodies open and release one at a time.',
+                 '§6 C06'),
     'C03': sched('Proof (general, local tier): in the model a node is launched only in a section where `ready` holds — every '
                  '(resolved) source has a stored, visible, non-Recurrent result — and its kwargs are exactly the stored results '
                  'of its sources under the declared names; the input node gets the caller\'s kwargs (C03_* in Props/C03.lean, all '
